@@ -186,6 +186,11 @@ def compose(shs, rng, tier):
         c_ = mk(s, [rng.choice(["inplace", "append", "all", "topic"]) for _ in s["flags"]], rng.choice(ALLP), 1)
         c_["sameFilter"] = True
         cases.setdefault(key(c_) + "/same", c_)
+    # (f) QoS 0 messages (the copies must not depend on the QoS): a sample of the cases above with the real QoS values
+    #     rotated (model 1 -> real 0, model 2 -> real 1)
+    for k_ in rng.sample(sorted(cases), min(len(cases), 400 if quick else 4000)):
+        c_ = dict(cases[k_], qrot=2)
+        cases.setdefault(k_ + "/qrot", c_)
     out = []
     for i, k in enumerate(sorted(cases)):
         c = cases[k]
